@@ -164,7 +164,9 @@ impl<'a, 'o, 'c> CommonMarkFormatter<'a, 'o, 'c> {
                         crate::verif::step();
                         i += 1;
                     }
-                    if !buf.get(i + 1).map_or(false, |&c| isdigit(c)) {
+                    if !buf.get(i + 1).map_or(false, |&c| {
+                        isdigit(c) || c == b'-' || c == b'+' || c == b'='
+                    }) {
                         self.last_breakable = last_nonspace;
                     }
                 }
